@@ -6,6 +6,9 @@ AGG = {"src": "kani_aggstub.rs", "dest": "src/crypto/aggsig/kani_aggstub.rs", "d
 CERT = {"src": "kani_certstub.rs", "dest": "src/consensus/cert/kani_certstub.rs", "decl_in": "src/consensus/cert.rs", "decl": "pub(crate) mod kani_certstub;"}
 SLOTFIX = {"src": "kani_slotfix.rs", "dest": "src/consensus/pool/slot_state/kani_slotfix.rs", "decl_in": SS, "decl": "mod kani_slotfix;"}
 KINDS = ["notar", "nfallback", "skip", "sfallback", "final"]
+import importlib.util, os
+_c3 = importlib.util.spec_from_file_location("c03spec", os.path.join(os.path.dirname(os.path.dirname(os.path.abspath(__file__))), "C03", "spec.py")); _C3 = importlib.util.module_from_spec(_c3); _c3.loader.exec_module(_C3)
+C03_BUILD = {"overlays": _C3.SPEC["overlays"], "redirects": _C3.SPEC["redirects"], "coll_cap": _C3.SPEC["coll_cap"]}
 
 def redirect(file, line, repl):
     import re
@@ -36,7 +39,9 @@ SPEC = {
     "harnesses": [
         {"name": "c06_kernel_s2n", "path": MOD, "tiers": Q, "role": "safe-to-notar decision kernel", "stubs": STUBS, "covers": 4, "timeout": {"quick": 600, "thorough": 1500}, "mem_gb": 10,
          "functions": ["SlotState::check_safe_to_notar", "SlotState::notify_parent_known"], "bounds": "3 validators with symbolic 16-bit stakes, each holding notar(A) | notar(B) | skip | nothing, the two others possibly a skip-fallback vote on top of their notar vote; parent of A unknown / known / certified; A pending or not; one call"},
-    ] + ([{"name": n, "path": MOD, "tiers": Q, "role": "probe", "stubs": STUBS, "covers": 2, "timeout": 900, "mem_gb": 12, "functions": [], "bounds": ""} for n in ("c06_s2s_light_skip", "c06_s2s_light_sfallback")] if __import__("os").environ.get("VERIF_EXPERIMENTAL") else []) + [
+        # Safe-to-skip step harnesses were tried again late in the session (C03's step harness with the safe-to-skip
+        # bookkeeping left open: 2.2 M symex steps, memory cap - a PoolEvent pushed under a symbolic guard makes CBMC
+        # explore the drop glue of every PoolEvent variant) and are not registered: the seeded change C06-m2 is missed.
         # The trigger harnesses (c06_last_*, c06_kernel_s2s_*) exist in kani_c06.rs but exceed the time / memory caps
         # (one add_vote with the safe-to-notar re-evaluation loops: > 400 s of symbolic execution, measured) and are not registered.
     ],
